@@ -190,4 +190,11 @@ Definition backend_exec (s : kstore) (body : list resp) : resp * kstore :=
     | Some (KHash fs) => (Arr (Some (flat_map (fun fv => [Bulk (Some (fst fv)); Bulk (Some (snd fv))]) fs)), s)
     | None => (Arr (Some []), s)
     end
+  else if is "hscan" then
+    (* cursor 0, everything in one page: a nested array *)
+    match kget s k with
+    | Some (KStr _) => (b_wrong, s)
+    | Some (KHash fs) => (Arr (Some [Bulk (Some [48]); Arr (Some (flat_map (fun fv => [Bulk (Some (fst fv)); Bulk (Some (snd fv))]) fs))]), s)
+    | None => (Arr (Some [Bulk (Some [48]); Arr (Some [])]), s)
+    end
   else (Err (bytes_of_string "ERR unknown"), s).
